@@ -98,18 +98,28 @@ static bool has_float(const Basic &e)
     return false;
 }
 // first place where the printed-and-reparsed tree differs from the original: class signature of a defect
-static std::string node_class(const Basic &e)
+static std::string node_class(const Basic &e, bool shallow = false)
 {
     std::string t = type_code_name(e.get_type_code());
     if (is_a<Symbol>(e))
         return "Symbol";
     if (is_a<FunctionSymbol>(e))
         return "FunctionSymbol";
+    if (is_a<ComplexDouble>(e)) {
+        std::complex<double> z = down_cast<const ComplexDouble &>(e).i;
+        return (z.real() == 0 || z.imag() == 0) ? "ComplexDouble(zero-part)" : "ComplexDouble";
+    }
+    if (is_a<Infty>(e)) {
+        const Infty &i = down_cast<const Infty &>(e);
+        return i.is_positive_infinity() ? "Infty+" : i.is_negative_infinity() ? "Infty-" : "zoo";
+    }
     if (is_a_Number(e)) {
         const Number &n = down_cast<const Number &>(e);
         if (is_a<Integer>(e) || is_a<Rational>(e) || is_a<RealDouble>(e))
             return t + (n.is_zero() ? "0" : n.is_negative() ? "-" : "+");
     }
+    if (is_a<Pow>(e) && !shallow)
+        return "Pow[base:" + node_class(*down_cast<const Pow &>(e).get_base(), true) + "]";
     return t;
 }
 static std::string locus(const Basic &a, const Basic &b)
@@ -141,6 +151,78 @@ static std::string locus(const Basic &a, const Basic &b)
         if (!used[j])
             return locus(*x[firstx], *y[j]);
     return node_class(a) + "->" + node_class(b);
+}
+
+// ------------------------------------------------------------------ is the expression a fixed point of its own constructors?
+// str() prints the tree, parse() re-applies the public constructors to it.  If re-applying the constructor of some
+// node u to u's own arguments does not give u back (sign(2*pi) is stored as sign(pi), but sign(pi) evaluates to 1),
+// the expression cannot round-trip whatever the printer and the parser do: the canonical form is not unique
+// (C03/C04 territory).  Such cases get their own signature class naming the innermost unstable node.
+static RCP<const Basic> construct1(const Basic &e)
+{
+    vec_basic a = e.get_args();
+    if (a.empty())
+        return e.rcp_from_this();
+    if (is_a<Add>(e))
+        return add(a);
+    if (is_a<Mul>(e))
+        return mul(a);
+    if (is_a<Pow>(e))
+        return pow(a[0], a[1]);
+    if (auto f = dynamic_cast<const OneArgFunction *>(&e))
+        return f->create(a[0]);
+    if (auto f = dynamic_cast<const TwoArgFunction *>(&e))
+        return f->create(a[0], a[1]);
+    if (auto f = dynamic_cast<const MultiArgFunction *>(&e))
+        return f->create(a);
+    if (is_a<Equality>(e))
+        return Eq(a[0], a[1]);
+    if (is_a<Unequality>(e))
+        return Ne(a[0], a[1]);
+    if (is_a<LessThan>(e))
+        return Le(a[0], a[1]);
+    if (is_a<StrictLessThan>(e))
+        return Lt(a[0], a[1]);
+    if (is_a<And>(e) || is_a<Or>(e)) {
+        set_boolean sb;
+        for (auto &x : a)
+            sb.insert(rcp_static_cast<const Boolean>(x));
+        return is_a<And>(e) ? logical_and(sb) : logical_or(sb);
+    }
+    if (is_a<Xor>(e)) {
+        vec_boolean vb;
+        for (auto &x : a)
+            vb.push_back(rcp_static_cast<const Boolean>(x));
+        return logical_xor(vb);
+    }
+    if (is_a<Not>(e))
+        return logical_not(rcp_static_cast<const Boolean>(a[0]));
+    return e.rcp_from_this();
+}
+// innermost node that its own constructor does not reproduce ("" if none); out: description
+static std::string find_unstable(const Basic &e, std::string &desc)
+{
+    for (auto &a : e.get_args()) {
+        std::string r = find_unstable(*a, desc);
+        if (!r.empty())
+            return r;
+    }
+    try {
+        RCP<const Basic> c = construct1(e);
+        if (key(*c) != key(e)) {
+            std::string cls = node_class(e, true) + "(";
+            vec_basic a = e.get_args();
+            for (size_t i = 0; i < a.size() && i < 3; i++)
+                cls += (i ? "," : "") + node_class(*a[i], true);
+            cls += ")";
+            desc = "the constructor of " + sstr(e.rcp_from_this()) + " [" + key(e) + "] applied to its own arguments returns " + sstr(c) + " [" + key(*c) + "]";
+            return cls;
+        }
+    } catch (std::exception &x) {
+        desc = std::string("the constructor of ") + sstr(e.rcp_from_this()) + " applied to its own arguments throws " + x.what();
+        return node_class(e, true) + "(throws)";
+    }
+    return "";
 }
 
 // ------------------------------------------------------------------ operations
@@ -195,7 +277,43 @@ static std::vector<Op> make_ops()
     return O;
 }
 
-enum { K_TRANS, K_REFUSED, K_RT_EXACT, K_RT_FLOAT, K_SKIP_NONFINITE, K_MIRROR, K_REBUILD, K_REBUILD_DIFFKEY, K_VIOL_CASES, K_DUPCHK, K_PW };
+// Constructor calls that cannot be executed at all (they hang, abort or would allocate astronomically): these are
+// defects or limits of the CONSTRUCTORS (recorded under C08/C40), not of printing/parsing; no expression exists
+// to print, so the transition is skipped and counted.  Kept as narrow as the known classes.
+static bool real_mag_gt(const Basic &e, double lim)
+{
+    double d;
+    if (is_a<RealDouble>(e))
+        d = down_cast<const RealDouble &>(e).i;
+    else if (is_a<Integer>(e))
+        d = mp_get_d(down_cast<const Integer &>(e).as_integer_class());
+    else if (is_a<Rational>(e))
+        d = mp_get_d(down_cast<const Rational &>(e).as_rational_class());
+    else
+        return false;
+    return std::fabs(d) > lim;
+}
+static bool half_integer(const Basic &e)
+{
+    return is_a<Rational>(e) && get_den(down_cast<const Rational &>(e).as_rational_class()) == 2;
+}
+static bool unconstructible(const std::string &op, const Basic &a, const Basic &b)
+{
+    static const std::set<std::string> enumerating = {"gamma", "primepi", "primorial", "zeta", "zeta2", "polygamma", "loggamma", "dirichlet_eta",
+                                                      "lowergamma", "uppergamma", "beta"};
+    if (enumerating.count(op) && (real_mag_gt(a, 1000) || real_mag_gt(b, 1000)))
+        return true; // factorials / sieves / Bernoulli numbers up to the argument
+    if (op == "zeta2" && is_a<Integer>(a) && is_a<Integer>(b) && down_cast<const Integer &>(b).is_zero())
+        return true; // C08: zeta(s, 0) never returns
+    if (op == "beta" && half_integer(a) && half_integer(b)
+        && !down_cast<const Number &>(*add(a.rcp_from_this(), b.rcp_from_this())).is_positive())
+        return true; // C08: beta of two half-integers with sum <= 0 aborts in factorial(-1)
+    if (op == "pow" && is_a<Integer>(b) && real_mag_gt(b, 5000) && is_a_Number(a) && !is_a<RealDouble>(a) && !is_a<ComplexDouble>(a))
+        return true; // exact power with an astronomically large result
+    return false;
+}
+
+enum { K_TRANS, K_REFUSED, K_RT_EXACT, K_RT_FLOAT, K_SKIP_NONFINITE, K_MIRROR, K_REBUILD, K_REBUILD_DIFFKEY, K_VIOL_CASES, K_DUPCHK, K_PW, K_GUARD, K_UNSTABLE };
 static std::vector<std::string> CN = {"transitions",
                                       "transitions_refused_by_library(exception)",
                                       "round_trips_checked_exactly(key+eq)",
@@ -206,7 +324,9 @@ static std::vector<std::string> CN = {"transitions",
                                       "rebuild_from_reversed_args_gave_other_value(not compared)",
                                       "violating_transitions",
                                       "duplicate_arrivals_rechecked",
-                                      "piecewise_transitions"};
+                                      "piecewise_transitions",
+                                      "transitions_skipped_constructor_cannot_run(hang/abort/huge; C08 classes)",
+                                      "round_trip_differs_because_state_is_not_a_fixed_point_of_its_constructors"};
 
 static bool first_of_class(const std::string &sig)
 {
@@ -250,6 +370,13 @@ static bool check_state(const RCP<const Basic> &r, const std::string &recipe, Ct
     bool ok = fl ? fkey(*p) == fk : (key(*p) == key(*r));
     c.outcome(std::string(type_code_name(r->get_type_code())) + (fl ? ":float" : ":exact"));
     if (!ok) {
+        std::string ud, uc = find_unstable(*r, ud);
+        if (!uc.empty()) {
+            c.count(K_UNSTABLE);
+            report(c, "unstable-form:" + uc, recipe + " = " + s + " [" + key(*r) + "] is not reproduced by its own constructors (" + ud
+                                                 + "), so parse(str) = " + sstr(p) + " [" + key(*p) + "] differs; not a printer/parser defect");
+            return false;
+        }
         report(c, "roundtrip:" + locus(*r, *p),
                recipe + " = " + s + " [" + key(*r) + "]; parse(str) = " + sstr(p) + " [" + key(*p) + "]" + (fl ? " (floats compared to 15 significant digits)" : ""));
         return false;
@@ -406,6 +533,10 @@ struct Explorer {
             int op, ia, ib;
             decode(i, op, ia, ib);
             const Op &o = ops[op];
+            if (unconstructible(o.name, *SS.S[ia].e, *SS.S[ib].e)) {
+                c.count(K_GUARD);
+                return;
+            }
             c.eval();
             c.count(K_TRANS);
             RCP<const Basic> r;
@@ -445,12 +576,17 @@ struct Explorer {
                 continue;
             int op, ia, ib;
             decode(i, op, ia, ib);
+            if (unconstructible(ops[op].name, *SS.S[ia].e, *SS.S[ib].e))
+                continue;
             try {
                 RCP<const Basic> r = ops[op].f(SS.S[ia].e, SS.S[ib].e);
                 g_nonfinite = false;
                 (void)fkey(*r);
                 if (g_nonfinite)
                     continue;
+                std::string ud;
+                if (!find_unstable(*r, ud).empty())
+                    continue; // quarantine: no descendants of a state that is not canonical
                 add_state(r, recipe(op, ia, ib), n, op, ia, ib);
             } catch (std::exception &) {
             }
@@ -530,7 +666,7 @@ int main(int argc, char **argv)
     Run &R = run();
     RCP<const Basic> x = symbol("x"), y = symbol("y");
     auto Q = [](long a, long b) { return Rational::from_two_ints(a, b); };
-    auto CX = [](long a, long b, long c, long d) { return Complex::from_two_rats(*Rational::from_two_ints(a, b), *Rational::from_two_ints(c, d)); };
+    auto CX = [](long a, long b, long c, long d) { return Complex::from_two_nums(*Rational::from_two_ints(a, b), *Rational::from_two_ints(c, d)); };
     typedef std::vector<std::pair<std::string, RCP<const Basic>>> Leaves;
     Leaves quick = {{"x", x},
                     {"y", y},
@@ -555,8 +691,7 @@ int main(int argc, char **argv)
                     {"oo", Inf},
                     {"True", boolTrue},
                     {"False", boolFalse}};
-    Leaves extra = {{"10^20", integer(integer_class("100000000000000000000"))},
-                    {"2/3", Q(2, 3)},
+    Leaves extra = {{"2/3", Q(2, 3)},
                     {"-I", CX(0, 1, -1, 1)},
                     {"0.1", real_double(0.1)},
                     {"1e20", real_double(1e20)},
